@@ -4,12 +4,14 @@ import (
 	"bytes"
 	"fmt"
 	"sort"
+	"strings"
 	"testing"
 
 	"verifharness/model"
 
 	"github.com/wolimst/lib-secs2-hsms-go/pkg/ast"
 	"github.com/wolimst/lib-secs2-hsms-go/pkg/parser/hsms"
+	"github.com/wolimst/lib-secs2-hsms-go/pkg/parser/sml"
 )
 
 // C13 - the 16,777,215-byte limit and the length header are exact for every size.
@@ -315,6 +317,37 @@ func checkC13Expand(c c13ExpandCase) (ci caseInfo, err error) {
 	return ci, nil
 }
 
+type c13SMLCase struct {
+	Quoted int `json:"quoted"` // characters in the quoted run
+	Codes  int `json:"codes"`  // character codes after it
+}
+
+func init() { registerReplay("c13sml", checkC13SML) }
+
+func checkC13SML(c c13SMLCase) (ci caseInfo, err error) {
+	ci.Nontrivial = true
+	ci.Key = fmt.Sprintf("sml/%d/%d", c.Quoted, c.Codes)
+	ci.label("sml-route")
+	total := c.Quoted + c.Codes
+	text := "S1F1 W H->E\n<A \"" + strings.Repeat("y", c.Quoted) + "\"" + strings.Repeat(" 0x0A", c.Codes) + ">\n."
+	msgs, errs, _ := sml.Parse(text)
+	if total <= model.MaxLen {
+		if len(errs) != 0 || len(msgs) != 1 {
+			return ci, fmt.Errorf("ASCII literal of %d quoted characters and %d codes (%d <= 16,777,215) is rejected: %q", c.Quoted, c.Codes, total, errs)
+		}
+		done := msgs[0].SetSessionIDAndSystemBytes(1, []byte{0, 0, 0, 1})
+		lh, _ := refHeader(model.A, total)
+		if b := done.ToBytes(); len(b) != 14+len(lh)+total || !bytes.Equal(b[14:14+len(lh)], lh) {
+			return ci, fmt.Errorf("ASCII literal of %d characters parsed, but the message encodes to %d bytes (want %d)", total, len(b), 14+len(lh)+total)
+		}
+		return ci, nil
+	}
+	if len(errs) == 0 || len(msgs) != 0 {
+		return ci, fmt.Errorf("ASCII literal of %d characters (> 16,777,215) is accepted", total)
+	}
+	return ci, nil
+}
+
 func TestC13Items(t *testing.T) {
 	shard, nshards := shardInfo()
 	seq := 0
@@ -332,6 +365,12 @@ func TestC13Items(t *testing.T) {
 	expands := []c13ExpandCase{{Trailing: 63, Repeat: 300000}, {Trailing: 15, Repeat: 1100000}, {Trailing: 0, Repeat: 70000}, {Trailing: 3, Repeat: 0}, {Trailing: 200, Repeat: 90000}}
 	if isThorough() {
 		expands = append(expands, c13ExpandCase{Trailing: 0, Repeat: model.MaxLen - 1}, c13ExpandCase{Trailing: 0, Repeat: model.MaxLen}, c13ExpandCase{Trailing: 2, Repeat: model.MaxLen - 2})
+	}
+	for _, c := range []c13SMLCase{{model.MaxLen, 0}, {model.MaxLen - 1, 1}, {model.MaxLen - 3, 3}, {model.MaxLen, 1}, {model.MaxLen + 1, 0}, {65535, 1}, {255, 1}} {
+		seq++
+		if seq%nshards == shard {
+			runCase[c13SMLCase](t, "C13", "c13sml", checkC13SML, c)
+		}
 	}
 	for _, c := range expands {
 		seq++
